@@ -7,6 +7,8 @@
 //   harness seq   : a token f<n> is initTaskingSystem(n, /*flushDenormals*/ true); tokens may also be u (a parallel_for) / s (a schedule()d closure): uses before / between inits
 //   harness cre   : stdin lines "n m ms"  -> one thread loops parallel_for while this thread alternates init(n)/init(m)
 //   harness ot    : stdin lines "n size dur" -> the same measured loop from the initialising thread and from another thread
+//   harness rif   : "n m tasks" re-initialisation with scheduled tasks in flight that run measured parallel_for loops
+//   harness qs    : "n" numTaskingThreads() asked from the main thread, loop bodies (first-level, nested) and a scheduled task
 //   harness pf    : stdin lines "nfirst n size dur"         -> "report=R count=C max_inside=M ids=I"
 //                   (nfirst != 0: an earlier initTaskingSystem(nfirst); dur: 0 | 50 | -1 (uneven) | -2 (NESTED:
 //                   each of the size outer bodies runs parallel_for(8) with 200 us bodies; count = inner bodies))
@@ -152,6 +154,74 @@ static std::string child_ot(const std::vector<int> &a)
   return o.str();
 }
 
+// re-initialisation with scheduled tasks IN FLIGHT that themselves run measured parallel_for loops: "n m tasks"
+static std::string child_rif(const std::vector<int> &a)
+{
+  if (a.size() != 3) return "bad-case";
+  int n = a[0], m = a[1], tasks = a[2];
+  initTaskingSystem(n);
+  static std::atomic<int> inside{0}, maxin{0}, maxin_after{0}, after{0}, done{0}, bodies{0};
+  auto body = [](int) {
+    int cur = ++inside;
+    int old = maxin.load();
+    while (cur > old && !maxin.compare_exchange_weak(old, cur)) {}
+    if (after.load()) {
+      int o2 = maxin_after.load();
+      while (cur > o2 && !maxin_after.compare_exchange_weak(o2, cur)) {}
+    }
+    spin_us(80);
+    bodies++;
+    --inside;
+  };
+  for (int i = 0; i < tasks; ++i)
+    schedule([=]() {
+      for (int r = 0; r < 6; ++r)
+        parallel_for(48, body);
+      done++;
+    });
+  spin_us(300);                       // the first tasks are running their loops now
+  initTaskingSystem(m);               // re-initialise with the tasks in flight
+  int rep = numTaskingThreads();
+  int done_at_return = done.load();
+  after = 1;
+  for (int r = 0; r < 4; ++r)
+    parallel_for(64, body);           // loops issued after the re-initialisation returned, next to whatever is still in flight
+  auto t0 = clk::now();
+  while (done.load() < tasks && clk::now() - t0 < std::chrono::seconds(10)) std::this_thread::yield();
+  std::ostringstream o;
+  o << "n=" << n << " m=" << m << " tasks=" << tasks << " report=" << rep << " tasks_done_at_return=" << done_at_return << " tasks_done=" << done.load()
+    << " bodies=" << bodies.load() << " max_inside=" << maxin.load() << " max_inside_after_return=" << maxin_after.load();
+  return o.str();
+}
+
+// numTaskingThreads() asked from different sites: "n"
+static std::string child_qs(const std::vector<int> &a)
+{
+  if (a.size() != 1) return "bad-case";
+  int n = a[0];
+  initTaskingSystem(n);
+  int q_main = numTaskingThreads();
+  std::atomic<int> lo1{1 << 30}, hi1{-1}, lo2{1 << 30}, hi2{-1}, qs{-1};
+  auto rec = [](std::atomic<int> &lo, std::atomic<int> &hi) {
+    int v = numTaskingThreads();
+    int o = lo.load(); while (v < o && !lo.compare_exchange_weak(o, v)) {}
+    o = hi.load(); while (v > o && !hi.compare_exchange_weak(o, v)) {}
+  };
+  int width = 4 * (q_main > 0 ? q_main : 1);
+  parallel_for(width, [&](int) { rec(lo1, hi1); spin_us(30); });                                    // first-level loop body
+  parallel_for(q_main > 0 ? q_main : 1, [&](int) { parallel_for(4, [&](int) { rec(lo2, hi2); spin_us(30); }); });   // nested loop body
+  std::atomic<int> *pq = &qs;
+  schedule([pq]() { pq->store(numTaskingThreads()); });                                               // a scheduled task
+  std::atomic<int> pf{0};
+  parallel_for(2, [&](int) { pf++; });
+  auto t0 = clk::now();
+  while (qs.load() < 0 && clk::now() - t0 < std::chrono::seconds(3)) std::this_thread::yield();
+  std::ostringstream o;
+  o << "n=" << n << " main=" << q_main << " loop_body_min=" << lo1.load() << " loop_body_max=" << hi1.load() << " nested_body_min=" << lo2.load()
+    << " nested_body_max=" << hi2.load() << " scheduled_task=" << qs.load();
+  return o.str();
+}
+
 static std::string child_pf(const std::vector<int> &a)
 {
   if (a.size() != 4) return "bad-case";
@@ -226,7 +296,7 @@ int main(int argc, char **argv)
 {
   if (argc < 2) return 2;
   std::string mode = argv[1];
-  int case_deadline_s = getenv("C13_CASE_DEADLINE_S") ? atoi(getenv("C13_CASE_DEADLINE_S")) : (mode == "seq" ? 8 : 20);  // a seq child needs milliseconds
+  int case_deadline_s = getenv("C13_CASE_DEADLINE_S") ? atoi(getenv("C13_CASE_DEADLINE_S")) : (mode == "seq" ? 8 : (mode == "rif" || mode == "qs") ? 10 : 20);  // a seq child needs milliseconds
   if (case_deadline_s < 1) case_deadline_s = 20;
   int hangs = 0;
   std::string line;
@@ -245,7 +315,7 @@ int main(int argc, char **argv)
       bool test_hang_before = !v.empty() && v[0] == 99990, test_hang_after = !v.empty() && v[0] == 99991;
       if (test_hang_before || test_hang_after) v.erase(v.begin());   // self-test of the watchdog only
       if (test_hang_before) pause();
-      std::string r = mode == "seq" ? child_seq(v) : mode == "cre" ? child_cre(v) : mode == "ot" ? child_ot(v) : child_pf(v);
+      std::string r = mode == "seq" ? child_seq(v) : mode == "cre" ? child_cre(v) : mode == "ot" ? child_ot(v) : mode == "rif" ? child_rif(v) : mode == "qs" ? child_qs(v) : child_pf(v);
       r += "\n";
       ssize_t w = write(fd[1], r.c_str(), r.size());
       (void)w;
